@@ -5,6 +5,7 @@ from .. import gen, install, loops
 from ..common import COSTS, DISTANCES, ORDERS, cost, distance, order, pick, shard_count
 
 META = {
+    'refill': True,      # cases presented in a reused buffer are followed by a refill of that buffer (runner)
     'rule': ('cases = 12 curve families x 4 x-patterns x {C,F,view,int64} layouts, each driven through '
              'rdp / grdp / rdp_fixed / mp_grdp / min_point_rdp with random Distance x Metrics x Order x '
              't=10^U(-4,0) (U(0,1) for R2) x length/min_points in 0..n+2; distinct = digest(curve, simplifier, '
